@@ -100,7 +100,16 @@ static void format_operand(FILE *out, const DecodedInstruction *instr, int idx,
                 const char *str = nvm_get_string(mod, instr->operands[idx].u32);
                 if (str) {
                     fprintf(out, " %u", instr->operands[idx].u32);
-                    fprintf(out, "  ; \"%s\"", str);
+                    /* The comment must stay on one line: escape like .string does */
+                    fprintf(out, "  ; \"");
+                    for (const char *q = str; *q; q++) {
+                        switch (*q) {
+                            case '\n': fprintf(out, "\\n"); break;
+                            case '\r': fprintf(out, "\\r"); break;
+                            default:   fputc(*q, out); break;
+                        }
+                    }
+                    fprintf(out, "\"");
                     return;
                 }
             }
